@@ -63,6 +63,9 @@ package customize
 //@   requires validRM(rm)
 //@   safety C13
 //@   at InformerMap.Set(m, k, v) [C14,C15]: m == rm.relatedInformers && called(informerWrapper.AddEventHandler) && v != nil
+//@   bind call SharedInformerFactory.Resource: newInf, resErr
+//@   // a subscription that was opened is always tracked (Stop() releases only what is in relatedInformers)
+//@   ensures [C20,C18] called(SharedInformerFactory.Resource) && resErr == nil ==> count(InformerMap.Set) == 1
 //@   ensures [C15,C13] err == nil ==> validClient(client) && validInformer(informer)
 //@   ensures [C15,C13] err != nil ==> client == nil && informer == nil
 //@   ensures [C15,C13] validRM(rm)
